@@ -735,6 +735,67 @@ theorem dest_mem_of_dash (prog : Str) (c : Char) (cs : Str) (rest : List Str) (p
           subst h
           exact hmem
 
+/-! ## several drivers in one process -/
+
+/-- every entry object in the process-wide cache still says what its file says -/
+def Cache.Consistent (W : Str → Str → HostCfg) (c : Cache) : Prop :=
+  ∀ p h e, c.get p h = some e → e = W p h
+
+/-- the view a construction is given is the world `W` (file ↦ host ↦ entry) seen for that driver's host -/
+def Coherent (W : Str → Str → HostCfg) (a : Args) (v : SshConfigView) : Prop :=
+  ∀ p, v.lookup p = W p (strip a.host)
+
+theorem cachedView_eq (W : Str → Str → HostCfg) (c : Cache) (a : Args) (v : SshConfigView)
+    (hc : c.Consistent W) (hv : Coherent W a v) : cachedView c (strip a.host) v = v := by
+  have hf : cachedLookup c (strip a.host) v = v.lookup := by
+    funext p
+    unfold cachedLookup
+    cases hg : c.get p (strip a.host) with
+    | none => rfl
+    | some e => simp only []; rw [hc p _ e hg, hv p]
+  cases v
+  simp only [cachedView, hf]
+
+theorem step_result (fx : Fixes) (W : Str → Str → HostCfg) (c : Cache) (a : Args) (v : SshConfigView)
+    (hc : c.Consistent W) (hv : Coherent W a v) : (step fx c a v).2 = resolve fx a v := by
+  simp only [step, cachedView_eq W c a v hc hv]
+
+theorem step_consistent (fx : Fixes) (W : Str → Str → HostCfg) (c : Cache) (a : Args) (v : SshConfigView)
+    (hc : c.Consistent W) (hv : Coherent W a v) : (step fx c a v).1.Consistent W := by
+  simp only [step, cachedView_eq W c a v hc hv]
+  cases hr : resolve fx a v with
+  | error e => exact hc
+  | ok res =>
+    simp only []
+    split
+    · intro p h e hget
+      unfold Cache.get at hget
+      rw [List.find?_cons] at hget
+      by_cases hk : ((res.reported.cfgFile, strip a.host) == (p, h)) = true
+      · simp only [hk] at hget
+        simp at hget
+        simp at hk
+        obtain ⟨rfl, rfl⟩ := hk
+        rw [← hget, hv]
+      · simp only [hk] at hget
+        exact hc p h e (by unfold Cache.get; exact hget)
+    · exact hc
+
+/-- a model of the "simplification" that writes a driver's explicit port into the entry object it was handed
+    (which lives in the cache): used only to show that history independence is not a triviality -/
+def leakyStep (fx : Fixes) (c : Cache) (a : Args) (v : SshConfigView) : Cache × Except Err Resolved :=
+  let r := resolve fx a (cachedView c (strip a.host) v)
+  let c' := match r with
+    | .ok res =>
+      let e0 := cachedLookup c (strip a.host) v res.reported.cfgFile
+      ((res.reported.cfgFile, strip a.host), if a.port.isSome then { e0 with port := a.port } else e0) :: c
+    | .error _ => c
+  (c', r)
+
+def runLeaky (fx : Fixes) : Cache → List (Args × SshConfigView) → List (Except Err Resolved)
+  | _, [] => []
+  | c, (a, v) :: rest => (leakyStep fx c a v).2 :: runLeaky fx (leakyStep fx c a v).1 rest
+
 def Resolved.dummy : Resolved := ⟨⟨[], 0, [], [], [], [], true, [], []⟩, ⟨[], 0, 0, 0, []⟩, [], []⟩
 
 end Scrapli.Resolve
